@@ -89,7 +89,7 @@ Qed.
 Lemma KV_eventfd : forall k b, KV k -> KV (fst (k_eventfd k b)).
 Proof.
   intros k b K. unfold k_eventfd. destruct (emfile (flt k)); [exact K|].
-  destruct (no_eventfd (flt k) || (b && no_eventfd2 (flt k))); [exact K|].
+  destruct (efd_cut k && (no_eventfd (flt k) || (b && no_eventfd2 (flt k)))); [exact K|].
   pose proof (KV_alloc k K_EVENTFD K) as [K1 _]. destruct (k_alloc k K_EVENTFD) as [fd k1]. exact K1.
 Qed.
 
@@ -655,14 +655,14 @@ Proof.
   intros s j. unfold raw_unregister. apply ST_bind; [apply fd_unregister_st|]. intros s1. cbn [res_state].
   apply ST0_ST. set (s2 := do_close s1 (rw_rfd s1 j)).
   assert (S2 : ST0 s1 s2) by apply do_close_st0.
-  set (s3 := if efd_raw s2 =? 0 then do_close s2 (rw_wfd s2 j) else s2).
-  assert (S3 : ST0 s2 s3) by (unfold s3; destruct (efd_raw s2 =? 0); [apply do_close_st0|apply ST0_refl]).
+  set (s3 := if raw_is_pipe s2 j then do_close s2 (rw_wfd s2 j) else s2).
+  assert (S3 : ST0 s2 s3) by (unfold s3; destruct (raw_is_pipe s2 j); [apply do_close_st0|apply ST0_refl]).
   eapply ST0_trans; [exact S2|]. eapply ST0_trans; [exact S3|apply ST0_set_rw].
 Qed.
 
 Lemma raw_post_st0 : forall s j, ST0 s (raw_post s j).
 Proof.
-  intros s j. unfold raw_post. destruct (efd_raw s =? 0).
+  intros s j. unfold raw_post. destruct (raw_is_pipe s j).
   - pose proof (fun K => KX_write (kern s) (rw_wfd s j) 1 0 K) as G.
     destruct (k_write (kern s) (rw_wfd s j) 1 0) as [k1 x]. apply ST0_kern. exact G.
   - pose proof (fun K => KX_write (kern s) (rw_wfd s j) 8 1 K) as G.
